@@ -1,7 +1,16 @@
 /-
-Python values as the constraint evaluator sees them (`Validator._to_python_value` output and
-`_parse_atom` output).  Import-free (core Lean only) so that the driver links without Mathlib.
+Python values as the constraint evaluator sees them (`Validator._to_python_value` output,
+`_parse_atom` output, directly constructed arguments) and the Python primitives the evaluator
+applies to them: `==`, `str()`, `repr()`, `len()`, `isinstance`, `float()`, `int()`, `str.strip()`.
+
+Core Lean only (no Mathlib) so that the driver links.
+
+Floats are never Lean `Float`s: a Python float is carried as its `repr` text (external: CPython's
+shortest round-trip algorithm; supplied by the harness / `Env.floatRepr`) together with its *exact*
+value (`FVal`: a rational, ±inf, or nan).  Everything the evaluator decides about a float (`==`,
+`<`, `>`, isinstance) depends on the exact value only; `str()` is the carried text.
 -/
+import Octave.Gen.Unicode
 namespace Octave
 
 /-- Strings are lists of code points inside the model (kernel-reducible, induction-friendly). -/
@@ -17,33 +26,259 @@ def joinWith (sep : Str) : List Str → Str
   | [x] => x
   | x :: xs => x ++ sep ++ joinWith sep xs
 
-/-- A Python value.  `float` is not yet modelled in this engine (see DESIGN.md §5): the driver
-answers `unsupported` for cases that contain one. -/
+/-! ### Exact float values -/
+
+/-- The exact value of a Python float (IEEE-754 binary64), or of an int seen as a number. -/
+inductive FVal where
+  | fin (q : Rat)
+  | pinf
+  | ninf
+  | nan
+  deriving Repr, Inhabited, DecidableEq
+
+namespace FVal
+/-- Python `==` on numbers (int/float mixed comparison is exact in CPython). `nan` equals nothing. -/
+def eq : FVal → FVal → Bool
+  | fin a, fin b => a == b
+  | pinf, pinf => true
+  | ninf, ninf => true
+  | _, _ => false
+
+/-- Python `<` on numbers; every comparison with `nan` is `False`. -/
+def lt : FVal → FVal → Bool
+  | nan, _ => false
+  | _, nan => false
+  | fin a, fin b => decide (a < b)
+  | ninf, ninf => false
+  | ninf, _ => true
+  | _, ninf => false
+  | pinf, _ => false
+  | _, pinf => true
+
+/-- Python `>`. -/
+def gt (a b : FVal) : Bool := lt b a
+
+def isNan : FVal → Bool | nan => true | _ => false
+def ofInt (i : Int) : FVal := fin (i : Rat)
+end FVal
+
+/-! ### Rounding to binary64 (round-half-even), used by `float(int)` and `float(str)` -/
+
+/-- `n / d` rounded to the nearest integer, ties to even (`d > 0`). -/
+def roundHalfEven (n d : Nat) : Nat :=
+  let q := n / d
+  let r := n % d
+  if 2 * r < d then q else if d < 2 * r then q + 1 else if q % 2 == 0 then q else q + 1
+
+/-- ⌊log₂ (n/d)⌋ for `n, d > 0`. -/
+def floorLog2Ratio (n d : Nat) : Int :=
+  let k : Int := (Nat.log2 n : Int) - (Nat.log2 d : Int)
+  -- 2^(k-1) < n/d < 2^(k+1)
+  let ge : Bool := if k ≥ 0 then d * 2 ^ k.toNat ≤ n else d ≤ n * 2 ^ (-k).toNat
+  if ge then k else k - 1
+
+/-- The binary64 nearest to the positive rational `n/d`; `none` = the rounded value is ≥ 2^1024
+(overflow: `inf` for `float(str)`, `OverflowError` for `float(int)`). -/
+def roundPosToDouble (n d : Nat) : Option Rat :=
+  if n = 0 then some 0 else
+  let e : Int := max (floorLog2Ratio n d - 52) (-1074)
+  if e ≥ 0 then
+    let m := roundHalfEven n (d * 2 ^ e.toNat)
+    let v := m * 2 ^ e.toNat
+    if 2 ^ 1024 ≤ v then none else some (mkRat v 1)
+  else
+    let m := roundHalfEven (n * 2 ^ (-e).toNat) d
+    some (mkRat m (2 ^ (-e).toNat))
+
+/-- The binary64 nearest to `sign · n/d` as an `FVal` (overflow gives ±inf). -/
+def roundToDouble (neg : Bool) (n d : Nat) : FVal :=
+  match roundPosToDouble n d with
+  | some q => .fin (if neg then -q else q)
+  | none => if neg then .ninf else .pinf
+
+/-- Python `float(i)` for an `int`: `none` = `OverflowError`. -/
+def floatOfInt (i : Int) : Option FVal :=
+  match roundPosToDouble i.natAbs 1 with
+  | some q => some (.fin (if i < 0 then -q else q))
+  | none => none
+
+/-! ### Unicode tables of the running interpreter (generated) -/
+
+def isSpaceChar (c : Char) : Bool := Gen.spaceCodes.contains c.toNat
+
+/-- `unicodedata.decimal(c)`: value of a Unicode decimal digit. -/
+def decimalValue? (c : Char) : Option Nat :=
+  match Gen.digitZeros.find? (fun z => z ≤ c.toNat && c.toNat < z + 10) with
+  | some z => some (c.toNat - z)
+  | none => none
+
+def isUniDigit (c : Char) : Bool := (decimalValue? c).isSome
+def isAsciiDigit (c : Char) : Bool := '0' ≤ c && c ≤ '9'
+
+/-- Python `str.strip()` (no argument): remove `str.isspace()` characters at both ends. -/
+def pyStrip (s : Str) : Str :=
+  ((s.dropWhile isSpaceChar).reverse.dropWhile isSpaceChar).reverse
+
+def asciiLowerChar (c : Char) : Char := if 'A' ≤ c && c ≤ 'Z' then Char.ofNat (c.toNat + 32) else c
+/-- `str.lower()` restricted to ASCII letters (the driver refuses non-ASCII input to it). -/
+def asciiLower (s : Str) : Str := s.map asciiLowerChar
+
+/-! ### `int(str)` and `float(str)`: CPython's numeral grammar -/
+
+/-- `_PyUnicode_TransformDecimalAndSpaceToASCII`: non-ASCII spaces become ' ', non-ASCII decimal digits
+their ASCII digit, any other non-ASCII character '?' (which no numeral contains); ASCII is unchanged. -/
+def toAsciiNumeral (s : Str) : Str :=
+  s.map fun c =>
+    if c.toNat ≤ 127 then c
+    else if isSpaceChar c then ' '
+    else match decimalValue? c with
+      | some d => Char.ofNat (48 + d)
+      | none => '?'
+
+/-- C `Py_ISSPACE`. -/
+def isCSpace (c : Char) : Bool := c == ' ' || c == '\t' || c == '\n' || c == '\r' || c.toNat == 11 || c.toNat == 12
+
+def cStrip (s : Str) : Str := ((s.dropWhile isCSpace).reverse.dropWhile isCSpace).reverse
+
+/-- value of a list of ASCII digits -/
+def digitsVal : Str → Nat → Nat
+  | [], acc => acc
+  | c :: cs, acc => digitsVal cs (acc * 10 + (c.toNat - 48))
+
+/-- Digits with single underscores between digits (`1_000`): the digits without the underscores,
+`none` if the shape is wrong (leading/trailing/double underscore, empty, other characters). -/
+def digitsUnderscore : Str → Option Str
+  | [] => none
+  | c :: cs =>
+    if isAsciiDigit c then
+      match cs with
+      | [] => some [c]
+      | '_' :: rest => (digitsUnderscore rest).map (c :: ·)
+      | _ => (digitsUnderscore cs).map (c :: ·)
+    else none
+
+/-- Python `int(s)` for `str` (base 10): `none` = `ValueError` (including the 4300-digit limit). -/
+def pyIntOfStr (s : Str) : Option Int :=
+  let t := cStrip (toAsciiNumeral s)
+  let (neg, body) := match t with
+    | '-' :: r => (true, r)
+    | '+' :: r => (false, r)
+    | r => (false, r)
+  match digitsUnderscore body with
+  | none => none
+  | some ds =>
+    if ds.length > 4300 then none
+    else let n : Int := (digitsVal ds 0 : Nat); some (if neg then -n else n)
+
+/-- `_Py_string_to_number_with_underscores`: every '_' must sit between two ASCII digits;
+returns the text without underscores. -/
+def stripUnderscores : Str → Char → Option Str
+  | [], prev => if prev == '_' then none else some []
+  | c :: cs, prev =>
+    if c == '_' then
+      if isAsciiDigit prev then stripUnderscores cs c else none
+    else if prev == '_' && !isAsciiDigit c then none
+    else (stripUnderscores cs c).map (c :: ·)
+
+/-- A parsed float numeral. -/
+inductive FloatLit where
+  | inf (neg : Bool)
+  | nan
+  | dec (neg : Bool) (mant : Nat) (exp10 : Int) (ndigits : Nat)   -- mant · 10^exp10, mant has ndigits significant digits
+  deriving Repr
+
+def splitDigits (s : Str) : Str × Str := (s.takeWhile isAsciiDigit, s.dropWhile isAsciiDigit)
+
+/-- `_Py_dg_strtod` / `_Py_parse_inf_or_nan` on an ASCII text without sign handling done yet;
+the whole text must be consumed. -/
+def parseFloatLit (t : Str) : Option FloatLit :=
+  let (neg, body) := match t with
+    | '-' :: r => (true, r)
+    | '+' :: r => (false, r)
+    | r => (false, r)
+  let low := asciiLower body
+  if low == "inf".toList || low == "infinity".toList then some (.inf neg)
+  else if low == "nan".toList then some .nan
+  else
+    let (ip, r1) := splitDigits body
+    let (fp, r2) := match r1 with
+      | '.' :: r => splitDigits r
+      | r => ([], r)
+    if ip.isEmpty && fp.isEmpty then none
+    else
+      let mantDigits := ip ++ fp
+      let mant := digitsVal mantDigits 0
+      let nd := (mantDigits.dropWhile (· == '0')).length
+      match r2 with
+      | [] => some (.dec neg mant (-(fp.length : Int)) nd)
+      | e :: r3 =>
+        if e == 'e' || e == 'E' then
+          let (eneg, r4) := match r3 with
+            | '-' :: r => (true, r)
+            | '+' :: r => (false, r)
+            | r => (false, r)
+          let (ed, r5) := splitDigits r4
+          if ed.isEmpty || !r5.isEmpty then none
+          else
+            let ev : Int := (digitsVal ed 0 : Nat)
+            some (.dec neg mant ((if eneg then -ev else ev) - (fp.length : Int)) nd)
+        else none
+
+/-- value of a float numeral as a binary64 -/
+def FloatLit.toFVal : FloatLit → FVal
+  | .inf neg => if neg then .ninf else .pinf
+  | .nan => .nan
+  | .dec neg mant e nd =>
+    if mant = 0 then .fin 0
+    -- magnitude guards: mant·10^e ≥ 10^(nd-1+e); > 1.8e308 overflows, < 2.4e-324 rounds to zero
+    else if (nd : Int) + e > 310 then (if neg then .ninf else .pinf)
+    else if (nd : Int) + e < -330 then .fin 0
+    else if e ≥ 0 then roundToDouble neg (mant * 10 ^ e.toNat) 1
+    else roundToDouble neg mant (10 ^ (-e).toNat)
+
+/-- Python `float(s)` for `str`: `none` = `ValueError`. -/
+def pyFloatOfStr (s : Str) : Option FVal :=
+  let t := cStrip (toAsciiNumeral s)
+  let t' := if t.contains '_' then stripUnderscores t '\x00' else some t
+  match t' with
+  | none => none
+  | some u => (parseFloatLit u).map FloatLit.toFVal
+
+/-! ### Values -/
+
+/-- A Python value.  `float` carries its `repr` text and its exact value; `zone` is a
+`LiteralZoneValue(content, info_tag, fence_marker)`. -/
 inductive PyVal where
   | null
   | bool (b : Bool)
   | int (i : Int)
+  | float (repr : Str) (v : FVal)
   | str (s : Str)
   | list (xs : List PyVal)
+  | zone (content : Str) (tag : Option Str) (fence : Str)
   deriving Repr, Inhabited
 
 namespace PyVal
 
-/-- Numeric view used by Python's cross-type `==` (`True == 1`). -/
-def num? : PyVal → Option Int
-  | bool b => some (if b then 1 else 0)
-  | int i => some i
+/-- Numeric view used by Python's cross-type `==` and comparisons (`True == 1`, `1 == 1.0`). -/
+def num? : PyVal → Option FVal
+  | bool b => some (.fin (if b then 1 else 0))
+  | int i => some (FVal.ofInt i)
+  | float _ v => some v
   | _ => Option.none
 
 mutual
-/-- Python `==` restricted to the modelled value kinds. -/
+/-- Python `==` on the modelled value kinds.  (Lists compare element-wise; CPython's identity
+shortcut for a shared `nan` object inside a list is outside the model: the driver refuses lists
+that contain a nan.) -/
 def pyEq : PyVal → PyVal → Bool
   | null, null => true
   | str a, str b => a == b
   | list a, list b => pyEqList a b
+  | zone c t f, zone c' t' f' => c == c' && t == t' && f == f'
   | a, b =>
     match a.num?, b.num? with
-    | some x, some y => x == y
+    | some x, some y => x.eq y
     | _, _ => false
 def pyEqList : List PyVal → List PyVal → Bool
   | [], [] => true
@@ -51,9 +286,25 @@ def pyEqList : List PyVal → List PyVal → Bool
   | _, _ => false
 end
 
-/-- Python `repr` of a `str` for the characters the generators use (no quotes/backslashes/controls:
-the driver refuses others), i.e. `'…'`. -/
-def reprStr (s : Str) : Str := '\'' :: s ++ ['\'']
+def hexDigit (n : Nat) : Char := if n < 10 then Char.ofNat (48 + n) else Char.ofNat (87 + n)
+
+/-- body of Python's `repr(str)` for quote character `q` (ASCII rules; printable non-ASCII is kept,
+non-printable non-ASCII is refused by the driver). -/
+def reprBody (q : Char) : Str → Str
+  | [] => []
+  | c :: cs =>
+    (if c == '\\' then ['\\', '\\']
+     else if c == q then ['\\', q]
+     else if c == '\n' then ['\\', 'n']
+     else if c == '\r' then ['\\', 'r']
+     else if c == '\t' then ['\\', 't']
+     else if c.toNat < 32 || c.toNat == 127 then ['\\', 'x', hexDigit (c.toNat / 16), hexDigit (c.toNat % 16)]
+     else [c]) ++ reprBody q cs
+
+/-- Python `repr` of a `str`: single quotes unless the text contains `'` and no `"`. -/
+def reprStr (s : Str) : Str :=
+  let q := if s.contains '\'' && !s.contains '"' then '"' else '\''
+  q :: reprBody q s ++ [q]
 
 mutual
 /-- Python `str(value)` (`q = false`) and `repr(value)` (`q = true`); they differ on `str` only. -/
@@ -62,8 +313,13 @@ def render (q : Bool) : PyVal → Str
   | bool true => "True".toList
   | bool false => "False".toList
   | int i => intStr i
+  | float r _ => r
   | str s => if q then reprStr s else s
   | list xs => '[' :: joinWith [',', ' '] (renderList xs) ++ [']']
+  | zone c t f =>
+    "LiteralZoneValue(content=".toList ++ reprStr c ++ ", info_tag=".toList
+      ++ (match t with | some t => reprStr t | Option.none => "None".toList)
+      ++ ", fence_marker=".toList ++ reprStr f ++ [')']
 def renderList : List PyVal → List Str
   | [] => []
   | x :: xs => render true x :: renderList xs
@@ -73,6 +329,39 @@ end
 def pyStr (v : PyVal) : Str := render false v
 /-- Python `repr(value)`. -/
 def pyRepr (v : PyVal) : Str := render true v
+
+def isBool : PyVal → Bool | bool _ => true | _ => false
+def isStr : PyVal → Bool | str _ => true | _ => false
+def isList : PyVal → Bool | list _ => true | _ => false
+def isZone : PyVal → Bool | zone .. => true | _ => false
+/-- `isinstance(v, int)` — includes `bool`. -/
+def isIntInst : PyVal → Bool | bool _ => true | int _ => true | _ => false
+def isFloatInst : PyVal → Bool | float .. => true | _ => false
+
+/-- `len(v)` for `str | list`. -/
+def len? : PyVal → Option Nat
+  | str s => some s.length
+  | list xs => some xs.length
+  | _ => Option.none
+
+/-- Outcome of Python `float(value)` as `RangeConstraint.evaluate` calls it. -/
+inductive FloatConv where
+  | ok (x : FVal)
+  | valueOrTypeError      -- caught by `except (ValueError, TypeError)`
+  | overflowError         -- `float(int)` for |int| ≥ 2^1024: not caught
+  deriving Repr, DecidableEq
+
+/-- Python `float(value)`. -/
+def toFloat : PyVal → FloatConv
+  | bool b => .ok (.fin (if b then 1 else 0))
+  | int i => match floatOfInt i with
+    | some x => .ok x
+    | Option.none => .overflowError
+  | float _ x => .ok x
+  | str s => match pyFloatOfStr s with
+    | some x => .ok x
+    | Option.none => .valueOrTypeError
+  | _ => .valueOrTypeError
 
 end PyVal
 end Octave
